@@ -331,6 +331,7 @@ class BulkHarness(Harness):
                     bad("wire", "params-vs-wire", f"group {group}: {len(bodies_handed)} bulks handed out by the parameter source, {len(bodies_sent)} different bodies arrived at the cluster")
                 per_file_seq = {}
                 emitted_ids = {}
+                next_fresh = {}
                 for bi, p in enumerate(handed[gi]):
                     nbulks_total += 1
                     lines = p["body"].split(b"\n")
@@ -399,6 +400,12 @@ class BulkHarness(Harness):
                                 mine = emitted_ids.setdefault(fid, set())
                                 if did in mine:
                                     pass  # conflict with an id this group's reader emitted earlier: allowed
+                                elif cfg["conflicts"] == "sequential" and fid in next_fresh and did != "%010d" % next_fresh[fid]:
+                                    # sequential ids are handed out in order: an id that has not been emitted yet and is not the next
+                                    # fresh one is a "conflict" with a document this client has not written
+                                    bad("conflicts", "id-not-yet-emitted", f"group {group}: id {did} of {fid} was used although this group has only emitted ids up to {'%010d' % (next_fresh[fid] - 1)} (next fresh id would be {'%010d' % next_fresh[fid]})")
+                                    ok = False
+                                    break
                                 else:
                                     owner = all_ids.get(key)
                                     if owner is not None and owner != gi:
@@ -411,6 +418,11 @@ class BulkHarness(Harness):
                                         break
                                     all_ids[key] = gi
                                     mine.add(did)
+                                    if cfg["conflicts"] == "sequential":
+                                        try:
+                                            next_fresh[fid] = int(did) + 1
+                                        except ValueError:
+                                            pass
                             elif "_id" in meta:
                                 bad("bulk-shape", "unexpected-id", f"group {group}: id generated although conflicts are off: {action}")
                                 ok = False
